@@ -98,13 +98,13 @@ fn run(case: &Case09, with_upgrades: bool, sliced: bool, out: &mut Outcome) -> O
     let mut expect_initial = false;
     let held: std::cell::RefCell<std::collections::BTreeSet<usize>> = Default::default();
     held.borrow_mut().insert(0);
-    let mut record = |hw: &HbWorld, r: &mut Run| {
+    let record = |hw: &HbWorld, r: &mut Run| {
         let s = snapshot::take(&hw.w);
         if r.seq.last().map(|l| snapshot::diff(l, &s, false, true, true).is_some()).unwrap_or(true) {
             r.seq.push(s);
         }
     };
-    let mut beat = |hw: &mut HbWorld, b: Option<u16>, i: usize, out: &mut Outcome, r: &mut Run, expect_initial: &mut bool| -> bool {
+    let beat = |hw: &mut HbWorld, b: Option<u16>, i: usize, out: &mut Outcome, r: &mut Run, expect_initial: &mut bool| -> bool {
         let log_before = hw.source.borrow().log.len();
         let info = hw.heartbeat(if sliced { b } else { None });
         if let Some(p) = &info.trapped {
